@@ -400,20 +400,23 @@ def judge(res, ref):
         if "CORRUPT" in l:
             bad.append(("corrupt-data", l))
     stuck = False
+    # per-call results: (details present?, through the hidden entry point with explicit config?, result)
+    calls = [re.match(r"C cleanup node details=(\w+) fallback=(\w+) -> (\S+)", l) for l in after]
+    calls = [(m.group(1) == "true", m.group(2) == "true", m.group(3)) for m in calls if m]
+    clines = [x for x in after if x.startswith("C ")]
+    if any((not d) and (not fb) and r != "ok" for d, fb, r in calls):
+        bad.append(("cleanup-without-details-uses-global-config", clines))
+    real = sorted({r for d, fb, r in calls if (d or fb) and r != "ok"
+                   and not (r == "ResourcesAlreadyCleanedUp" and res.get("cleaner_k") is not None)})
     for l in [l for l in after if l.startswith("O cleanup")]:
         v = l.split(" = ")[1]
-        if "fallback:y" in v:
-            bad.append(("cleanup-without-details-uses-global-config", [x for x in after if x.startswith("C ")]))
-        rs = re.search(r"results:\[(.*)\]$", v).group(1)
-        rl = [x.strip('"') for x in rs.split(",") if x]
         if v.startswith("STUCK"):
             st = re.search(r"states:\[([^\]]*)\]", v).group(1)
-            bad.append(("node-never-clean:" + st + ":" + "+".join(x for x in rl if x != "ok"), [x for x in after if x.startswith("C ")]))
+            bad.append(("node-never-clean:" + st + ":" + "+".join(real), clines))
             stuck = True
         else:
-            for r in rl:
-                if r not in ("ok",) and not (r == "ResourcesAlreadyCleanedUp" and (res.get("cleaner_k") is not None or "fallback:y" in v)):
-                    bad.append(("cleanup-result:" + r, [x for x in after if x.startswith("C ")]))
+            for r in real:
+                bad.append(("cleanup-result:" + r, clines))
     if stuck:
         return bad
     resid = False
